@@ -26,14 +26,22 @@ StepAcc(x) ==
         \* a request stored while the Step that accepts another request is in progress is
         \* overwritten when that Step retires its own request (modelled corner, DESIGN C08)
         c2 == IF fires /\ ~Accepting(x.c, o) THEN [o EXCEPT !.pend = x.sched.pend] ELSE o
+        \* a callback may assign a new BreakPoints map at its at-th bus access: Run tests the map
+        \* that is current after the Step
+        swaps == x.bpswap.at > 0 /\ x.n < x.bpswap.at /\ x.bpswap.at <= n2
     IN [c |-> c2, pio |-> x.pio \o o.pio, n |-> n2,
         rs |-> x.rs + o.rslack + (IF o.ralt THEN 1 ELSE 0),
-        steps |-> x.steps + 1, sched |-> IF fires THEN NoSched ELSE x.sched]
+        steps |-> x.steps + 1, sched |-> IF fires THEN NoSched ELSE x.sched,
+        bp |-> IF swaps THEN x.bpswap.set ELSE x.bp,
+        bpswap |-> IF swaps THEN [at |-> 0] ELSE x.bpswap]
     : o \in StepSet(x.c) }
 
-Stops(x, bp) == IF x.c.r.PC \in bp THEN "bp" ELSE IF x.c.halt THEN "nil" ELSE "no"
+\* (bp is the set given at the call; it is kept in the run state, where a callback may replace it)
+Stops(x, bp) == IF x.c.r.PC \in x.bp THEN "bp" ELSE IF x.c.halt THEN "nil" ELSE "no"
 
-RunStart(c, sched) == [c |-> [c EXCEPT !.halt = FALSE], pio |-> <<>>, n |-> 0, rs |-> 0, steps |-> 0, sched |-> sched]
+RunStartB(c, sched, bp, bpswap) ==
+  [c |-> [c EXCEPT !.halt = FALSE], pio |-> <<>>, n |-> 0, rs |-> 0, steps |-> 0, sched |-> sched, bp |-> bp, bpswap |-> bpswap]
+RunStart(c, sched) == RunStartB(c, sched, {}, [at |-> 0])
 
 \* declarative result: the run states after the first n >= 1 Steps such that the stop
 \* rule holds (a set, because StepSet is a set); live = still running when fuel ran out
@@ -43,7 +51,7 @@ RunLoop(S, bp, fuel, D) ==
   ELSE LET nx == UNION {StepAcc(x) : x \in S}
            fin == {x \in nx : Stops(x, bp) # "no"}
        IN RunLoop(nx \ fin, bp, fuel - 1, D \cup fin)
-RunResults(c, bp, sched, fuel) == RunLoop({RunStart(c, sched)}, bp, fuel, {})
+RunResults(c, bp, sched, fuel) == RunLoop({RunStartB(c, sched, bp, [at |-> 0])}, bp, fuel, {})
 
 \* cancellation: Run may return the context's error at any Step boundary before the
 \* stop rule held; the harness reports the number of bus accesses, which identifies
@@ -55,7 +63,7 @@ CancelLoop(S, bp, nacc, fuel) ==
   IN IF go = {} \/ fuel = 0 THEN hit
      ELSE LET nx == UNION {StepAcc(x) : x \in go}
           IN hit \cup CancelLoop({x \in nx : Stops(x, bp) = "no"}, bp, nacc, fuel - 1)
-Boundaries(c, bp, sched, nacc, fuel) == CancelLoop({RunStart(c, sched)}, bp, nacc, fuel)
+Boundaries(c, bp, sched, nacc, fuel) == CancelLoop({RunStartB(c, sched, bp, [at |-> 0])}, bp, nacc, fuel)
 
 \* C07: two final states are related when registers (minus R), flags, IFF state, mode and the
 \* halted indication coincide and memory coincides outside the stack bytes below SP
